@@ -99,10 +99,20 @@ def floydRoute (n : Nat) (s : FloydSt) (src dst : Nat) : Except RouteErr (List L
 def U64 : Nat := 2 ^ 64
 def ULONG_MAX : Nat := U64 - 1
 
-/-- switches for the proposed fixes (props/C25/proposed_fix.diff); `false` = the code as it is now -/
-def fixedHopOrder : Bool := false         -- insert_link_latency keeps the order of a hop's links
-def fixedUnreachableGuard : Bool := false -- a node popped with cost ULONG_MAX is not relaxed from; pred_arr starts at
-                                          -- ULONG_MAX ("no predecessor") and the composition throws "No route" on it
+/-- which DijkstraZone is modelled.  `hop`: `insert_link_latency` keeps the order of a hop's links (fix
+`dijkstra-multilink-hop-reversed`, props/C25/fix_series/01-…); `guard`: a node popped with cost ULONG_MAX is not
+relaxed from, `pred_arr` starts at ULONG_MAX ("no predecessor") and the composition throws "No route" on it (fix
+`dijkstra-unreachable-node-wraps`, props/C25/fix_series/02-…).  The code as it is now is `DVar.now` (both `true`);
+`DVar.old` (both `false`) is the code before the two fixes, kept for the regression theorems (`Props`: `…_prefix_…`). -/
+structure DVar where
+  hop : Bool
+  guard : Bool
+  deriving Repr, DecidableEq
+
+def fixedHopOrder : Bool := true
+def fixedUnreachableGuard : Bool := true
+def DVar.now : DVar := { hop := fixedHopOrder, guard := fixedUnreachableGuard }
+def DVar.old : DVar := { hop := false, guard := false }
 
 structure DEdge where
   src : Nat          -- graph node index
@@ -169,42 +179,46 @@ def relaxEdges (v : Nat) (st : DState) : List DEdge → DState
     else relaxEdges v st es
 
 /-- `while (not pqueue.empty())` — `fuel` bounds the number of pops (each push lowers a cost, so the C++ terminates) -/
-def dijkstraLoop (g : DGraph) : Nat → DState → Option DState
+def dijkstraLoop (V : DVar) (g : DGraph) : Nat → DState → Option DState
   | 0, _ => none
   | f+1, st =>
     match popMin st.queue with
     | none => some st
     | some ((_, v), rest) =>
       let st := { st with queue := rest }
-      if fixedUnreachableGuard && st.cost.getD v 0 = ULONG_MAX then dijkstraLoop g f st
-      else dijkstraLoop g f (relaxEdges v st (g.outEdges v))
+      -- if (cost_arr[v_id] == ULONG_MAX) continue;      (not reachable from src: nothing to relax from)
+      if V.guard && st.cost.getD v 0 = ULONG_MAX then dijkstraLoop V g f st
+      else dijkstraLoop V g f (relaxEdges v st (g.outEdges v))
 
-/-- initialisation of cost_arr / pred_arr / pqueue, then the loop: the predecessor array for `src` -/
-def dijkstraPreds (g : DGraph) (fuel src : Nat) : Option (List Nat) :=
+/-- initialisation of cost_arr / pred_arr (`pred_arr[i] = ULONG_MAX`, before the fix: `0`) / pqueue, then the loop:
+the predecessor array for `src` -/
+def dijkstraPreds (V : DVar) (g : DGraph) (fuel src : Nat) : Option (List Nat) :=
   let n := g.nodes.length
   let cost := (List.range n).map fun i => if i = src then 0 else ULONG_MAX
-  let st : DState := { cost := cost, pred := List.replicate n (if fixedUnreachableGuard then ULONG_MAX else 0), queue := (List.range n).map fun i => (cost.getD i 0, i) }
-  (dijkstraLoop g fuel st).map (·.pred)
+  let st : DState := { cost := cost, pred := List.replicate n (if V.guard then ULONG_MAX else 0), queue := (List.range n).map fun i => (cost.getD i 0, i) }
+  (dijkstraLoop V g fuel st).map (·.pred)
 
-/-- insert_link_latency(result, links): `result.insert(result.begin(), rbegin(links), rend(links))` -/
-def insertFront (result links : List Lk) : List Lk :=
-  (if fixedHopOrder then links else links.reverse) ++ result
+/-- insert_link_latency(result, links): `result.insert(result.begin(), begin(links), end(links))`
+(before the fix: `rbegin(links), rend(links)`) -/
+def insertFront (V : DVar) (result links : List Lk) : List Lk :=
+  (if V.hop then links else links.reverse) ++ result
 
-/-- "compose route path with links": `for (v = dst; v != src; v = pred[v])`, an edge missing = "No route" -/
-def dijkstraWalk (g : DGraph) (pred : List Nat) (src : Nat) : Nat → Nat → List Lk → Except RouteErr (List Lk)
+/-- "compose route path with links": `for (v = dst; v != src; v = pred[v])`; `pred_arr[v] == ULONG_MAX` (v was never
+reached from src) or an edge missing = "No route" -/
+def dijkstraWalk (V : DVar) (g : DGraph) (pred : List Nat) (src : Nat) : Nat → Nat → List Lk → Except RouteErr (List Lk)
   | 0, _, _ => .error .loops
   | f+1, v, acc =>
     if v = src then .ok acc
     else
       let p := pred.getD v 0
-      if fixedUnreachableGuard && p = ULONG_MAX then .error .noRoute else
+      if V.guard && p = ULONG_MAX then .error .noRoute else
       match g.findEdge p v with
       | none => .error .noRoute
-      | some e => dijkstraWalk g pred src f p (insertFront acc e.links)
+      | some e => dijkstraWalk V g pred src f p (insertFront V acc e.links)
 
 /-- DijkstraZone::get_local_route (cache on or off: the predecessor array of a source is a function of the sealed
 graph only, so the cached copy equals a recomputation) -/
-def dijkstraRoute (g : DGraph) (fuel : Nat) (srcId dstId : Nat) : Except RouteErr (List Lk) :=
+def dijkstraRouteV (V : DVar) (g : DGraph) (fuel : Nat) (srcId dstId : Nat) : Except RouteErr (List Lk) :=
   match g.nodeIdx srcId, g.nodeIdx dstId with
   | some s, some d =>
     -- "if the src and dst are the same": the self edge first (then the computation goes on, its walk is empty)
@@ -212,15 +226,19 @@ def dijkstraRoute (g : DGraph) (fuel : Nat) (srcId dstId : Nat) : Except RouteEr
       if s = d then
         match g.findEdge s d with
         | none => .error .noRoute
-        | some e => .ok (insertFront [] e.links)
+        | some e => .ok (insertFront V [] e.links)
       else .ok []
     match first with
     | .error e => .error e
     | .ok acc =>
-      match dijkstraPreds g fuel s with
+      match dijkstraPreds V g fuel s with
       | none => .error .loops
-      | some pred => dijkstraWalk g pred s (g.nodes.length + 1) d acc
+      | some pred => dijkstraWalk V g pred s (g.nodes.length + 1) d acc
   | _, _ => .error .nullDeref
+
+/-- the code as it is now -/
+def dijkstraRoute (g : DGraph) (fuel : Nat) (srcId dstId : Nat) : Except RouteErr (List Lk) :=
+  dijkstraRouteV DVar.now g fuel srcId dstId
 
 /- ================================================================ specification: chains of declared routes -/
 
